@@ -23,6 +23,8 @@ ANCHORS = [
     ("src/easynetwork/serializers/base_stream.py", "FixedSizePacketSerializer.incremental_deserialize"),
     ("src/easynetwork/serializers/base_stream.py", "FixedSizePacketSerializer.buffered_incremental_deserialize"),
     ("src/easynetwork/serializers/base_stream.py", "FixedSizePacketSerializer.create_deserializer_buffer"),
+    ("src/easynetwork/serializers/base_stream.py", "AutoSeparatedPacketSerializer.create_deserializer_buffer"),
+    ("src/easynetwork/serializers/line.py", "StringLineSerializer.create_deserializer_buffer"),
     ("src/easynetwork/serializers/line.py", "StringLineSerializer.incremental_serialize"),
     ("src/easynetwork/serializers/base_stream.py", "FixedSizePacketSerializer.incremental_serialize"),
     ("src/easynetwork/serializers/line.py", "StringLineSerializer.incremental_deserialize"),
@@ -113,6 +115,8 @@ def gen_packet(impl, sep, rng, maxlen, conv=False):
         alphabet = bytes(set(sep or b"")) + b"xyz\x00\xff"
         return bytes(rng.choice(alphabet) for _ in range(n))
     if name == b"line":
+        if rng.random() < 0.12:
+            return sep.decode("ascii")          # a blank line: a packet of its own when keep_end=True
         alphabet = "ab\r\n \xe9" if impl[1] == b"latin-1" else "ab\r\n c"
         return "".join(rng.choice(alphabet) for _ in range(n))
     if name == b"fixed":
@@ -173,9 +177,41 @@ def build(cfgd, kind, pkts, limit, hint):
     return kind, cfg, dec, stream, sent
 
 
+def spec_wire(cfgd, p):
+    """what the documented sending side puts on the wire for packet p (None: not transmittable), stated without calling
+    the serializer under test: line / AutoSeparated test subclass / base64 wrapper"""
+    name, sep = cfgd["impl"][0], cfgd.get("sep")
+    if name == b"line":
+        try:
+            data = p.encode(cfgd["impl"][1].decode())
+        except UnicodeError:
+            return None
+        if not data:
+            return None
+        return data if data.endswith(sep) else data + sep
+    if name == b"autosep":
+        data = bytes(p)
+        if not data or sep in data:
+            return None
+        return data + sep
+    if name == b"b64":
+        import base64
+        import hashlib
+        data = bytes(p)
+        if cfgd["impl"][2]:
+            data += hashlib.sha256(data).digest()
+        tok = (base64.standard_b64encode if cfgd["impl"][1] == b"standard" else base64.urlsafe_b64encode)(data)
+        if not tok or sep in tok:
+            return None
+        return tok + sep
+    return NotImplemented
+
+
 def validity(cfgd, kind, cfg, stream, sent, pkts):
-    """valid_pkt of the theorem, checked on the real serializer: every frame's separator first occurs at its end,
-    payload non-empty (an empty payload is not transmitted at all), within the band."""
+    """valid_pkt of the theorem: every frame's separator first occurs at its end, the payload is non-empty (an empty
+    payload is not transmitted at all), within the band, and decoding the frame gives the packet back.  For the line
+    serializer, the AutoSeparated test subclass and the base64 wrapper this is decided from the DOCUMENTED wire format,
+    not by calling the serializer under test (a sending side that deviates then shows up as sent != received)."""
     if kind in (2, 3):
         return True
     if cfgd.get("conv") and not all(p and all("0" <= ch <= "9" for ch in p) for p in pkts):
@@ -184,20 +220,25 @@ def validity(cfgd, kind, cfg, stream, sent, pkts):
     ser = sc.make_serializer(base_kind(kind), cfg, cfgd["impl"])
     proto = StreamProtocol(ser)
     for p in pkts:
-        data = b"".join(proto.generate_chunks(p))
+        data = spec_wire(cfgd, p)
+        if data is NotImplemented:
+            data = b"".join(proto.generate_chunks(p))
         if not data or not data.endswith(sep):
             return False
         payload = data[: -len(sep)]
         if data.find(sep) != len(payload):
             return False
-        if cfgd["impl"][0] == b"line" and not cfgd["keep_end"]:
-            pass
         if len(payload) + len(sep) + 1 > limit:
             return False
-        try:
-            back = ser.deserialize(data if cfgd["keep_end"] else payload)
-        except Exception:
-            return False
+        if cfgd["impl"][0] == b"line":
+            back = (data if cfgd["keep_end"] else payload).decode(cfgd["impl"][1].decode())
+        elif cfgd["impl"][0] in (b"autosep", b"b64"):
+            back = bytes(p)
+        else:
+            try:
+                back = ser.deserialize(data if cfgd["keep_end"] else payload)
+            except Exception:
+                return False
         if back != p:
             return False
     return True
@@ -227,7 +268,8 @@ def ser_cases(tier, rng, escalate):
         yield dict(input=[10, 2, [size], data, [b"fixed"]], tags=["kind10", "ser-fixed"], nontrivial=len(data) == size)
 
 
-JSON_DOCS = [[1], {"a": "b"}, 'x"y', "\\", 12, None, True, [[]], {"k": [1, {"z": "}"}]}, "[", 1.5, "a]b", [], {}, "\\\""]
+JSON_DOCS = [[1], {"a": "b"}, 'x"y', "\\", 12, None, True, [[]], {"k": [1, {"z": "}"}]}, "[", 1.5, "a]b", [], {}, "\\\"",
+             1e+16, 2.5e+30, -1e-07, -0.0, 123456789012345678901234567890, False, [1e+22, -3e-5]]
 
 
 def generic_cases(tier, rng, escalate):
@@ -466,8 +508,40 @@ def nt_oracle(inp):
     return None
 
 
+def big_cases(tier, rng, escalate):
+    """packets larger than the default receive size (16 KiB) but within the limit, read in 4 KiB blocks with small and
+    large buffer-size hints: the buffer-filling path must deliver them like the copying path"""
+    thorough = tier == "thorough" or escalate
+    limit = 40000
+    confs = [dict(kinds=(0, 1), sep=b"\n", keep_end=False, impl=[b"autosep"]),
+             dict(kinds=(0, 1), sep=b"\r\n", keep_end=False, impl=[b"line", b"ascii"]),
+             dict(kinds=(0, 1), sep=b"\r\n", keep_end=False, impl=[b"b64", b"standard", 0])]
+    for cfgd in confs:
+        for kind in cfgd["kinds"]:
+            for hint in ([64, 4096, 65536] if thorough else [rng.choice([64, 4096])]):
+                n = 17000 + rng.randrange(0, 3000) if cfgd["impl"][0] != b"b64" else 13000 + rng.randrange(0, 1500)
+                if cfgd["impl"][0] == b"line":
+                    big = "".join(rng.choice("abc ") for _ in range(n))
+                    pkts = [big, "tail"]
+                else:
+                    big = bytes(rng.choice(b"xyz") for _ in range(n))
+                    pkts = [big, b"tail"]
+                b = build(cfgd, kind, pkts, limit, hint)
+                if b is None:
+                    continue
+                kind_, cfg, dec, stream, sent = b
+                valid = validity(cfgd, kind, cfg, stream, sent, pkts)
+                if dec is None:
+                    dec = sc.decode_table(base_kind(kind), cfg, cfgd["impl"], stream, "frames")
+                chunks = [stream[i:i + 4096] for i in range(0, len(stream), 4096)]
+                yield dict(input=[kind, cfg, dec, chunks, cfgd["impl"], sent, int(valid)],
+                           tags=[f"kind{kind}", cfgd["impl"][0].decode(), "big-packet", f"hint{hint}", "valid" if valid else "excluded-input"],
+                           nontrivial=True)
+
+
 def cases(tier, rng, escalate):
     yield from ser_cases(tier, rng, escalate)
+    yield from big_cases(tier, rng, escalate)
     yield from nt_cases(tier, rng, escalate)
     yield from b64_cases(tier, rng, escalate)
     yield from shipped_cases(tier, rng, escalate)
@@ -688,7 +762,14 @@ def ser_oracle(inp):
     if variant == 2:
         return None if stream == data else f"fixed-size frame differs from serialize(): {stream!r}"
     sep = cfg[0]
-    if not data or (data + sep).find(sep) != len(data):
+    if variant == 0 and data.endswith(sep) and data.find(sep) == len(data) - len(sep):
+        # a line that already ends with its newline (a blank line included): sent as it is; with keep_end=True the
+        # receiving side returns it unchanged
+        from easynetwork.serializers.line import StringLineSerializer
+        if stream != data:
+            return f"line ending with its newline {data!r} is sent as {stream!r}"
+        ser = StringLineSerializer(sc.NEWLINES[sep], encoding=impl[1].decode(), limit=1000, keep_end=True)
+    elif not data or (data + sep).find(sep) != len(data):
         return None        # documented as not transmittable (empty, or contains / ends into the separator)
     from easynetwork.lowlevel._stream import StreamDataConsumer
     from easynetwork.protocol import StreamProtocol
